@@ -39,7 +39,7 @@ def run_pool(fn, jobs, nproc=None):
 
 
 def run_programs(name, progs, scope, known, *, opts=None, kf_crosstalk="KF-K7-crosstalk", classify=None,
-                 exhaustive=True, option_refusal_ok=False) -> BoundedResult:
+                 exhaustive=True, option_refusal_ok=False, skip_rejected=False) -> BoundedResult:
     """progs: [(id, source)].  `classify(pid, src, output_dict) -> finding id | None` lets a property map a
     mismatch that exactly matches a recorded known finding to that finding."""
     opts = opts or {}
@@ -63,6 +63,10 @@ def run_programs(name, progs, scope, known, *, opts=None, kf_crosstalk="KF-K7-cr
             # layout stage refuses it: no blueprint, so nothing the property (accepted programs only) speaks about. Counted and listed.
             br.monitors["refused_with_option"] = br.monitors.get("refused_with_option", 0) + 1
             br.monitors.setdefault("refused_programs", []).append(pid)
+            continue
+        if r["status"] == "rejected" and skip_rejected:
+            # a corpus read from the repository (not a scope of programs known to be valid): a file the compiler refuses is not a case
+            br.monitors["rejected_files"] = br.monitors.get("rejected_files", 0) + 1
             continue
         if r["status"] == "rejected":
             br.undecided.append(f"{pid}: scope program rejected by the compiler: {r['detail'][:200]}")
